@@ -1,4 +1,5 @@
 import Clover.Proofs.Window
+import Clover.Proofs.SortOrder
 /-! # C08 — sort order and skip/limit windows are exact -/
 namespace CV.Props.C08
 open CV
@@ -23,5 +24,57 @@ theorem window_length (skip : Nat) (limit : Int) (l : List Doc) :
 
 example : Spec.window 1 2 [[], [([1], .null)], [([2], .null)], [([3], .null)]] = [[([1], .null)], [([2], .null)]] := by
   simp [Spec.window]
+
+end CV.Props.C08
+
+namespace CV.Props.C08
+open CV
+
+variable (likeFn : LikeFn) (fnFam : FnFam)
+
+/-- **`compareDocuments` is a total preorder** for every list of sort options with directions ±1, on
+    every set of documents whose compared values are comparable by value (C10's domain): sign
+    antisymmetry, totality and transitivity — so "sorted" is well defined and any two sorted
+    permutations have the same sequence of sort-key tuples (Go's unstable `sort.Slice` is covered). -/
+theorem compareDocuments_total_preorder (opts : List (Bytes × Int)) (ds : List Doc) (h : SortDom opts ds) :
+    (∀ a ∈ ds, ∀ b ∈ ds, compareDocuments a b opts = - compareDocuments b a opts) ∧
+    (∀ a ∈ ds, ∀ b ∈ ds, compareDocuments a b opts ≤ 0 ∨ compareDocuments b a opts ≤ 0) ∧
+    (∀ a ∈ ds, ∀ b ∈ ds, ∀ c ∈ ds, compareDocuments a b opts ≤ 0 → compareDocuments b c opts ≤ 0 →
+      compareDocuments a c opts ≤ 0) :=
+  ⟨fun a ha b hb => compareDocuments_antisymm opts ds h a b ha hb,
+   fun a ha b hb => compareDocuments_total opts ds h a b ha hb,
+   fun a ha b hb c hc => compareDocuments_trans opts ds h a b c ha hb hc⟩
+
+/-- **The in-memory sort node sorts**: its output is pairwise ordered by `compareDocuments`. -/
+theorem sort_node_sorts (opts : List (Bytes × Int)) (ds : List Doc) (h : SortDom opts ds) :
+    (sortDocs opts ds).Pairwise (fun a b => compareDocuments a b opts ≤ 0) := sortDocs_sorted opts ds h
+
+/-- **A sorted `FindAll` is sorted** (sort node present: any number of keys, either direction, any
+    skip/limit window, any index set and plan): every pair of returned documents is in
+    `compareDocuments` order. -/
+theorem findAll_is_sorted (s : Spec.State) (σ : KVS) (hw : WF s) (hr : Rep s σ) (q : Query) (coll : Spec.Coll)
+    (hl : Spec.lookup q.coll s = some coll) (hns : needSort q (choosePlan coll.indexes q).2 = true)
+    (hdom : SortDom q.sort ((coll.docs.map (·.2)).filter (fun d => satOpt likeFn fnFam d q.crit))) :
+    ∃ res, (withTx false (Op.body likeFn fnFam (.findAll q)) noFault σ).1 = .ok (.docs res) ∧
+      res.Pairwise (fun a b => compareDocuments a b q.sort ≤ 0) :=
+  findAll_sorted likeFn fnFam s σ hw hr q coll hl hns hdom
+
+/-- **… also when the sort node is elided because an index on the single sort field delivers the
+    order** (either direction, with or without an index range from the criteria): the answer is in
+    non-decreasing (non-increasing when descending) order of the field's value, an absent field
+    ordering together with nil (`get` reads it as nil). -/
+theorem findAll_in_index_order (s : Spec.State) (σ : KVS) (hw : WF s) (hr : Rep s σ) (q : Query) (coll : Spec.Coll)
+    (hl : Spec.lookup q.coll s = some coll) (hsorted : (choosePlan coll.indexes q).2 = true)
+    (hdom : ∀ f ∈ coll.indexes, ∀ e ∈ coll.docs, Dom numOK (e.2.get f))
+    (hcrit : ∀ cr, q.crit = some cr → CritDom cr) :
+    ∃ f dir res, q.sort = [(f, dir)] ∧
+      (withTx false (Op.body likeFn fnFam (.findAll q)) noFault σ).1 = .ok (.docs res) ∧
+      res.Pairwise (idxOrd f (decide (dir < 0))) :=
+  findAll_sort_by_index likeFn fnFam s σ hw hr q coll hl hsorted hdom hcrit
+
+/-- The answer of any plan is the skip/limit window of the filtered, ordered candidates (so the
+    window law `window_exact` applies to it), and a window of a sorted sequence is sorted. -/
+theorem window_of_sorted_is_sorted (R : Doc → Doc → Prop) (skip : Nat) (limit : Int) (l : List Doc) (h : l.Pairwise R) :
+    (Spec.window skip limit l).Pairwise R := window_sorted R skip limit l h
 
 end CV.Props.C08
